@@ -82,6 +82,9 @@ structure Route where
   pid : Nat
   nh : Option Nh
   attrs : Attrs
+  /-- announced twice with different contents within one flush: the two UPDATEs leave one
+      `drain_messages` in hash-map order, so which one survives is not determined -/
+  amb : Bool := false
   deriving DecidableEq, Repr, Inhabited
 
 abbrev Mirror := List Route
@@ -93,8 +96,21 @@ def Mirror.set (m : Mirror) (r : Route) : Mirror := m.del r.net r.pid ++ [r]
 
 def Mirror.applyMsg (m : Mirror) : Msg → Mirror
   | .unreach es => es.foldl (fun m e => m.del e.2 e.1) m
-  | .reach es nh as => es.foldl (fun m e => m.set ⟨e.2, e.1, nh, as⟩) m
+  | .reach es nh as => es.foldl (fun m e => m.set ⟨e.2, e.1, nh, as, false⟩) m
   | .eor => m
+
+/-- One flush: the messages of one `drain_messages`, remembering what this flush already
+    announced (`written`) so that a second, different announcement of a key is marked `amb`. -/
+def Mirror.applyTracked (acc : Mirror × List Route) : Msg → Mirror × List Route
+  | .unreach es => (es.foldl (fun m e => m.del e.2 e.1) acc.1, acc.2)
+  | .reach es nh as => es.foldl (fun (a : Mirror × List Route) e =>
+      let r : Route := ⟨e.2, e.1, nh, as, false⟩
+      match a.2.find? (fun w => w.net = r.net ∧ w.pid = r.pid) with
+      | some w => if w = r then (a.1.set r, a.2) else (a.1.set { r with nh := none, attrs := [], amb := true }, a.2)
+      | none => (a.1.set r, a.2 ++ [r])) acc
+  | .eor => (acc.1, [])      -- the buffered dump and its EOR precede the incremental messages
+
+def Mirror.applyFlush (m : Mirror) (msgs : List Msg) : Mirror := (msgs.foldl Mirror.applyTracked (m, [])).1
 
 /-! ## RIB (table/src/lib.rs) -/
 
@@ -188,7 +204,7 @@ def Shard.insert (s : Shard) (net : Net) (srcIdx : Nat) (src : Source) (remotePi
     | none =>
         let next0 := if rest.isEmpty then 1 else d.nextPid
         allocPathId rest next0 (rest.length + 1)
-  let e : RibEntry := ⟨{ pid := pid, src := src, nh := nh, attrs := attrs, attrId := attrId }, srcIdx, remotePid⟩
+  let e : RibEntry := ⟨{ pid := pid, src := src, nh := nh, attrs := attrs, attrId := attrId, srcIdx := srcIdx }, srcIdx, remotePid⟩
   let d' : Dest := { d with entries := insertRanked e rest, nextPid := next }
   let dests' := if s1.dests.any (·.net = net) then s1.dests.map (fun x => if x.net = net then d' else x)
                 else s1.dests ++ [d']
@@ -223,6 +239,25 @@ def dropDest (addr : Addr) (d : Dest) : Option Dest × Option (Change Net) :=
       let d' := { d with entries := rest }
       (some d', some ⟨d.net, d.id, oldBest != rest.head?.map (·.path.pid), true, none, rest.map (·.path)⟩)
 
+/-- stable sort by `rankKey` (`sort_unstable` is an insertion sort below 20 elements) -/
+def sortRanked (es : List RibEntry) : List RibEntry := es.foldl (fun acc e => insertRanked e acc) []
+
+/-- `Table::restale_llgr` for one destination: every `Arc<Source>` with that address is marked
+    (the flag sits on the shared source, so all its paths see it), the list is re-sorted. -/
+def restaleDest (addr : Addr) (d : Dest) : Dest × Option (Change Net) :=
+  if !d.entries.any (fun e => e.path.src.addr = addr) then (d, none)
+  else
+    let oldBest := d.entries.head?.map (·.path.pid)
+    let marked := d.entries.map (fun e =>
+      if e.path.src.addr = addr then { e with path := { e.path with src := { e.path.src with llgr := true } } } else e)
+    let sorted := sortRanked marked
+    let d' := { d with entries := sorted }
+    (d', some ⟨d.net, d.id, oldBest != sorted.head?.map (·.path.pid), true, none, sorted.map (·.path)⟩)
+
+def Shard.restaleLlgr (s : Shard) (addr : Addr) : Shard × List (Change Net) :=
+  let rs := s.dests.map (restaleDest addr)
+  ({ s with dests := rs.map (·.1) }, rs.filterMap (·.2))
+
 def Shard.drop (s : Shard) (addr : Addr) : Shard × List (Change Net) :=
   let rs := s.dests.map (dropDest addr)
   let kept := rs.filterMap (·.1)
@@ -252,9 +287,15 @@ structure SessState where
   mirror : Mirror := []
   owner : List (Nat × Net) := []  -- dest id ↦ prefix of the last delivered change (re-use counter)
   reuse : Nat := 0
+  overtaken : Nat := 0           -- refreshes that ran while changes were still queued behind them
   deriving Repr
 
 def applyOps (p : PendingTx) (ops : List (SinkOp Net)) : PendingTx := ops.foldl PendingTx.apply p
+
+/-- The paths of a queued change share their `Arc<Source>` with the RIB: the LLGR-stale flag is
+    the one in force when the change is processed. -/
+def withFlags (llgr : List Nat) (c : Change Net) : Change Net :=
+  { c with paths := c.paths.map (fun p => { p with src := { p.src with llgr := p.src.llgr || llgr.contains p.srcIdx } }) }
 
 /-- `handle_prefix_update` (`resend = false`) / the loop body of `do_route_refresh` (`true`) -/
 def SessState.handle (st : SessState) (c : Change Net) (resend : Bool := false) : SessState :=
@@ -291,19 +332,33 @@ def SessState.refresh (st : SessState) (rib : Rib) : SessState :=
     (fun st c => st.handle c true) st
   { st' with pending := { st'.pending with pendingEor := true } }
 
-def SessState.deliver (st : SessState) (rib : Rib) : Ev → SessState
-  | .change c =>
+def Ev.isChange : Ev → Bool
+  | .change _ => true
+  | .softReset => false
+
+/-- one `ToPeerEvent`; `behind` = what is still queued after it -/
+def SessState.deliver (st : SessState) (rib : Rib) (behind : List Ev) (llgr : List Nat := []) : Ev → SessState
+  | .change c0 =>
+      let c := withFlags llgr c0
       let reused := match st.owner.find? (·.1 = c.destId) with
         | some (_, n) => n != c.net
         | none => false
       let st1 := { st with owner := (c.destId, c.net) :: st.owner.filter (·.1 ≠ c.destId),
                            reuse := if reused then st.reuse + 1 else st.reuse }
       st1.handle c
-  | .softReset => st.refresh rib
+  | .softReset =>
+      let st1 := if behind.any Ev.isChange then { st with overtaken := st.overtaken + 1 } else st
+      st1.refresh rib
+
+/-- deliver the first `n` queued events, in order -/
+def deliverN (rib : Rib) (llgr : List Nat) : Nat → List Ev → SessState → List Ev × SessState
+  | 0, q, st => (q, st)
+  | _ + 1, [], st => ([], st)
+  | n + 1, e :: q, st => deliverN rib llgr n q (st.deliver rib q llgr e)
 
 def SessState.flush (st : SessState) : SessState :=
   let (msgs, p) := st.pending.drain
-  { st with pending := p, mirror := msgs.foldl Mirror.applyMsg st.mirror }
+  { st with pending := p, mirror := st.mirror.applyFlush msgs }
 
 /-! ## Cases -/
 
@@ -311,6 +366,7 @@ inductive Op where
   | ann (s p rpid a : Nat) (nh : Nh)
   | wd (s p rpid : Nat)
   | down (s : Nat)
+  | llgr (s : Nat)
   | reset (k : Option Nat)
   | deliver (n : Nat)
   | flush
@@ -329,6 +385,7 @@ structure Case01 where
 
 structure World where
   rib : Rib
+  llgrSrcs : List Nat := []     -- sources whose shared `llgr_stale` flag is set
   queue : List Ev := []
   st : SessState
   nextAttrId : Nat := 1
@@ -350,10 +407,11 @@ def updShard (rib : Rib) (i : Nat) (f : Shard → Shard × List (Change Net)) : 
   | some s => let (s', cs) := f s; (rib.set i s', cs)
 
 /-- A RIB operation: new RIB, the changes it fans out, next attribute-Arc id. -/
-def ribOp (c : Case01) (rib : Rib) (attrId : Nat) : Op → Rib × List (Change Net) × Nat
+def ribOp (c : Case01) (rib : Rib) (attrId : Nat) (llgr : List Nat := []) : Op → Rib × List (Change Net) × Nat
   | .ann s p rpid a nh =>
       match c.srcs[s]?, c.pfxs[p]?, c.asets[a]? with
-      | some src, some (net, sh), some as =>
+      | some src0, some (net, sh), some as =>
+          let src := if llgr.contains s then { src0 with llgr := true } else src0
           let (rib', cs) := updShard rib sh (fun shd =>
             let (x, ch) := shd.insert net s src rpid (some nh) as attrId
             (x, ch.toList))
@@ -373,27 +431,42 @@ def ribOp (c : Case01) (rib : Rib) (attrId : Nat) : Op → Rib × List (Change N
           let rs := rib.map (fun shd => shd.drop src.addr)
           (rs.map (·.1), sortChanges (rs.flatMap (·.2)), attrId)
       | none => (rib, [], attrId)
+  | .llgr s =>
+      match c.srcs[s]? with
+      | some src =>
+          let rs := rib.map (fun shd => shd.restaleLlgr src.addr)
+          (rs.map (·.1), sortChanges (rs.flatMap (·.2)), attrId)
+      | none => (rib, [], attrId)
   | _ => (rib, [], attrId)
 
 def World.step (c : Case01) (w : World) (op : Op) : World :=
   match op with
-  | .ann .. | .wd .. | .down .. =>
-      let (rib, cs, aid) := ribOp c w.rib w.nextAttrId op
-      { w with rib := rib, queue := w.queue ++ cs.map Ev.change, nextAttrId := aid }
+  | .ann .. | .wd .. | .down .. | .llgr .. =>
+      let (rib, cs, aid) := ribOp c w.rib w.nextAttrId w.llgrSrcs op
+      -- `restale_llgr` sets the flag on the `Arc<Source>` of every entry it finds for that address
+      let marked := match op with
+        | .llgr s =>
+            let addr := (c.srcs[s]?).map (·.addr)
+            let hit := (w.rib.flatMap (·.dests)).flatMap (fun d =>
+              (d.entries.filter (fun e => some e.path.src.addr = addr)).map (·.srcIdx))
+            w.llgrSrcs ++ hit.filter (fun i => !w.llgrSrcs.contains i)
+        | _ => w.llgrSrcs
+      { w with rib := rib, queue := w.queue ++ cs.map Ev.change, nextAttrId := aid, llgrSrcs := marked }
   | .reset k =>
       let pol : Option Policy := match k with
         | none => none
         | some i => (c.pols[i]?).getD none
       { w with st := { w.st with sess := { w.st.sess with policy := pol } }, queue := w.queue ++ [Ev.softReset] }
   | .deliver n =>
-      let evs := w.queue.take n
-      { w with queue := w.queue.drop n, st := evs.foldl (fun st e => st.deliver w.rib e) w.st }
+      let (q, st) := deliverN w.rib w.llgrSrcs n w.queue w.st
+      { w with queue := q, st := st }
   | .flush =>
       let st := w.st.flush
       { w with st := st, flushes := w.flushes ++ [st.mirror] }
 
 structure Obs01 where
   reuse : Nat
+  overtaken : Nat
   flushes : List Mirror
   final : Mirror
   dump : Mirror
@@ -405,12 +478,12 @@ def initRib (n : Nat) : Rib := (List.range n).map (fun i => { idx := i })
 
 def run01 (c : Case01) : Obs01 :=
   let (rib0, aid0) := c.pre.foldl (fun (acc : Rib × Nat) op =>
-      let (r, _, a) := ribOp c acc.1 acc.2 op
+      let (r, _, a) := ribOp c acc.1 acc.2 [] op
       (r, a)) (initRib c.shards, 1)
   let w0 : World := { rib := rib0, st := establish c.sess rib0, nextAttrId := aid0 }
   let w1 := c.ops.foldl (World.step c) w0
   let w2 := World.step c w1 (.deliver w1.queue.length)
   let st := w2.st.flush
-  ⟨st.reuse, w2.flushes, st.mirror, freshDump st.sess w2.rib⟩
+  ⟨st.reuse, st.overtaken, w2.flushes, st.mirror, freshDump st.sess w2.rib⟩
 
 end Rbgp.Export
